@@ -216,3 +216,50 @@ func zzC04Env(loop control_loop.ControlLoop) *zzEnv {
 	zzv.Assume(e.fan.GetMinPwm() <= e.fan.GetMaxPwm())
 	return e
 }
+
+// zzMemPersistence is an in-memory persistence.Persistence for controller start-up.
+type zzMemPersistence struct {
+	rpm     map[string]map[int]float64
+	pwmMaps map[string]map[int]int
+	saves   int
+}
+
+var errZZNotFound = zzErr("zz: not found")
+
+type zzErr string
+
+func (e zzErr) Error() string { return string(e) }
+
+func (p *zzMemPersistence) Init() error { return nil }
+func (p *zzMemPersistence) LoadFanPwmData(fan fans.Fan) (map[int]float64, error) {
+	d, ok := p.rpm[fan.GetId()]
+	if !ok {
+		return nil, errZZNotFound
+	}
+	return d, nil
+}
+func (p *zzMemPersistence) SaveFanPwmData(fan fans.Fan) error {
+	p.saves++
+	p.rpm[fan.GetId()] = *fan.GetFanRpmCurveData()
+	return nil
+}
+func (p *zzMemPersistence) DeleteFanPwmData(fan fans.Fan) error {
+	delete(p.rpm, fan.GetId())
+	return nil
+}
+func (p *zzMemPersistence) LoadFanPwmMap(fanId string) (map[int]int, error) {
+	d, ok := p.pwmMaps[fanId]
+	if !ok {
+		return nil, errZZNotFound
+	}
+	return d, nil
+}
+func (p *zzMemPersistence) SaveFanPwmMap(fanId string, pwmMap map[int]int) error {
+	p.saves++
+	p.pwmMaps[fanId] = pwmMap
+	return nil
+}
+func (p *zzMemPersistence) DeleteFanPwmMap(fanId string) error {
+	delete(p.pwmMaps, fanId)
+	return nil
+}
